@@ -8,6 +8,7 @@ import (
 	"go/ast"
 	"os"
 	"path/filepath"
+	"regexp"
 	"sort"
 	"strings"
 	"testing"
@@ -157,6 +158,9 @@ func WeakDiff(src, out []byte) string {
 		if genericAlias(src) && oracle.DiffStrings(sa, sb) == "" {
 			return "" // KF-3: the misplaced decoration changes the comment order, nothing is lost
 		}
+		if hasDirective(ca) && oracle.DiffStrings(dropEmpty(sa), dropEmpty(sb)) == "" {
+			return "" // go/printer's doc-comment formatter moves directive lines (//line, //go:...) to the end of a doc comment on its own
+		}
 		return "comments: " + d
 	}
 	return ""
@@ -293,4 +297,26 @@ func inlineGroupWithMultiLineComment(src []byte) bool {
 		}
 	}
 	return false
+}
+
+var directiveRE = regexp.MustCompile(`^//(line |[a-z0-9]+:[a-z0-9])`)
+
+func hasDirective(comments []string) bool {
+	for _, c := range comments {
+		if directiveRE.MatchString(c) {
+			return true
+		}
+	}
+	return false
+}
+
+// dropEmpty removes empty "//" lines (the doc formatter inserts one in front of moved directives).
+func dropEmpty(xs []string) []string {
+	var out []string
+	for _, x := range xs {
+		if x != "//" {
+			out = append(out, x)
+		}
+	}
+	return out
 }
